@@ -255,6 +255,8 @@ pub struct Cfg {
     pub window_rect: bool,
     pub alpha_bits: u32,
     pub max_parameter: usize,
+    /// `config.block_size` when it differs from the block-size ARGUMENT of the encode call (0 = same)
+    pub cfg_bs: usize,
 }
 
 impl Default for Cfg {
@@ -279,6 +281,7 @@ impl Default for Cfg {
             window_rect: false,
             alpha_bits: 0.4f32.to_bits(),
             max_parameter: 14,
+            cfg_bs: 0,
         }
     }
 }
@@ -286,7 +289,7 @@ impl Default for Cfg {
 impl Cfg {
     pub fn to_encoder(&self) -> config::Encoder {
         let mut e = config::Encoder::default();
-        e.block_size = self.block_size;
+        e.block_size = if self.cfg_bs != 0 { self.cfg_bs } else { self.block_size };
         e.multithread = self.multithread;
         e.workers = NonZeroUsize::new(self.workers);
         e.stereo_coding.use_leftside = self.use_leftside;
@@ -316,12 +319,13 @@ impl Cfg {
 
     pub fn render(&self) -> String {
         format!(
-            "bs:{},mt:{},w:{},ls:{},rs:{},ms:{},uc:{},uf:{},ul:{},fmo:{},sel:{},parts:{},lo:{},qp:{},dm:{},mae:{},win:{},alpha:{},maxp:{}",
+            "bs:{},mt:{},w:{},ls:{},rs:{},ms:{},uc:{},uf:{},ul:{},fmo:{},sel:{},parts:{},lo:{},qp:{},dm:{},mae:{},win:{},alpha:{},maxp:{}{}",
             self.block_size, self.multithread as u8, self.workers, self.use_leftside as u8, self.use_rightside as u8,
             self.use_midside as u8, self.use_constant as u8, self.use_fixed as u8, self.use_lpc as u8,
             self.fixed_max_order, if self.order_sel_bitcount { "bc" } else { "ent" }, self.partitions,
             self.lpc_order, self.quant_precision, self.use_direct_mse as u8, self.mae_steps,
-            if self.window_rect { "rect" } else { "tukey" }, self.alpha_bits, self.max_parameter
+            if self.window_rect { "rect" } else { "tukey" }, self.alpha_bits, self.max_parameter,
+            if self.cfg_bs != 0 { format!(",cbs:{}", self.cfg_bs) } else { String::new() }
         )
     }
 
@@ -350,6 +354,7 @@ impl Cfg {
                 "win" => c.window_rect = v == "rect",
                 "alpha" => c.alpha_bits = v.parse().unwrap(),
                 "maxp" => c.max_parameter = n(),
+                "cbs" => c.cfg_bs = n(),
                 _ => panic!("bad cfg key {k}"),
             }
         }
